@@ -23,8 +23,19 @@ pub open spec fn cfg_in_range(cp: ConfiguredPlugin) -> bool {
       r is Ok ==> dur_ns(r->Ok_0.2) == cfg_int(*cp, OPTION_MPP_TIMEOUT) as nat * 1_000_000_000
 //@ ensures#self_route_hints_flag [C19,C10]
       r is Ok ==> r->Ok_0.3 == !cfg_flag(*cp, OPTION_NO_SELF_ROUTE_HINTS)
-//@ ensures#payment_timeout_is_the_configured_one [C19]
-      r is Ok ==> r->Ok_0.4 as int == cfg_int(*cp, OPTION_PAYMENT_TIMEOUT)
+//@ ensures#payment_retry_time_is_the_configured_one_capped [C19]
+      r is Ok ==> r->Ok_0.4.retry_for_view() as int == (if cfg_int(*cp, OPTION_PAYMENT_TIMEOUT) <= 65535 { cfg_int(*cp, OPTION_PAYMENT_TIMEOUT) as int } else { 65535 })
 //@ ensures#xpay_flag [C19]
-      r is Ok ==> r->Ok_0.5 == cfg_bool(*cp, OPTION_XPAY)
+      r is Ok ==> r->Ok_0.4.xpay_view() == cfg_bool(*cp, OPTION_XPAY)
+//@ end
+
+//@ fn main::main#manager
+//@ implicit [C06,C19]
+//@ ensures#manager_runs_with_exactly_the_converted_values [C19,C04,C11,C12,C10]
+      r.params_view().cltv_delta == cltv_delta
+      && r.params_view().routing_policy == routing_policy
+      && r.params_view().mpp_timeout == mpp_timeout
+      && r.params_view().allow_self_route_hints == allow_self_route_hints
+      && r.params_view().local_pubkey == info.id
+      && r.params_view().payment_provider == payment_provider
 //@ end
